@@ -75,6 +75,8 @@ class Cfg:
         d = dict(d)
         if d.get("domain") == "G":
             return GCfg.from_json(d)
+        if d.get("domain") == "R":
+            return RCfg.from_json(d)
         d.pop("domain", None)
         d["patterns"] = tuple(d["patterns"])
         d["stats"] = tuple(d["stats"])
@@ -132,6 +134,49 @@ class GCfg:
     def from_json(d: dict) -> "GCfg":
         g = tuple(tuple(tuple(a) for a in alts) for alts in d["grammar"])
         return GCfg(g, tuple(d["stats"]), d["pack"], d["db"], d.get("expand_verified", False), d.get("debug", False), d.get("smallest", False))
+
+
+@dataclass(frozen=True)
+class RCfg:
+    """A search configuration over the R-domain (start class = a regular language)."""
+
+    rows: Tuple
+    acc: Tuple
+    pack: str
+    db: str
+    expand_verified: bool = False
+    debug: bool = False
+    smallest: bool = False
+    stats: Tuple[str, ...] = ()
+
+    def start(self):
+        from mc import domain_r as dr
+
+        return dr.R((self.rows, self.acc))
+
+    def make_pack(self):
+        from mc import domain_r as dr
+
+        return dr.r_pack(self.pack)
+
+    def brute_terms(self, n: int):
+        from mc import domain_r as dr
+
+        return dr.brute_terms(self.start(), n)
+
+    def sid(self) -> str:
+        return f"{self.start().sid()}//{self.pack}//{self.db}"
+
+    def to_json(self) -> dict:
+        return {"domain": "R", "rows": [list(r) for r in self.rows], "acc": [int(a) for a in self.acc], "pack": self.pack, "db": self.db}
+
+    @staticmethod
+    def from_json(d: dict) -> "RCfg":
+        return RCfg(tuple(tuple(r) for r in d["rows"]), tuple(bool(a) for a in d["acc"]), d["pack"], d["db"])
+
+    @staticmethod
+    def of(dfa, pack: str, db: str) -> "RCfg":
+        return RCfg(tuple(tuple(r) for r in dfa[0]), tuple(bool(a) for a in dfa[1]), pack, db)
 
 
 def build_searcher(cfg, db_hook=None):
